@@ -424,15 +424,18 @@ func c01SweepRun(src *choice.Src) *core.Result {
 }
 
 func c01Enumerate(quick bool, seed uint64, shard, nshards int, emit func([]uint64) bool) bool {
-	maxH, maxN := 4, 40
+	maxH, maxN, maxOrd := 4, 40, 8
+	warms := []int{0, 1, 2}
 	if quick {
-		maxH, maxN = 3, 18
+		// sized so that the quick tier enumerates it completely in its 10 s sweep budget
+		maxH, maxN, maxOrd = 2, 12, 6
+		warms = []int{0, 2}
 	}
 	nk := len(sw.NetFaultKinds) + len(sw.BenignNetKinds)
 	k := 0
 	for h := 1; h <= maxH; h++ {
 		for n := 1; n <= maxN; n++ {
-			ids := []int{0, n / 2, n - 1}
+			ids := []int{0, n - 1}
 			if !quick {
 				ids = nil
 				for i := 0; i < n; i++ {
@@ -445,7 +448,7 @@ func c01Enumerate(quick bool, seed uint64, shard, nshards int, emit func([]uint6
 					continue
 				}
 				prev = id
-				for warm := 0; warm < 3; warm++ {
+				for _, warm := range warms {
 					k++
 					if k%nshards != shard {
 						continue
@@ -453,7 +456,7 @@ func c01Enumerate(quick bool, seed uint64, shard, nshards int, emit func([]uint6
 					if !emit([]uint64{uint64(h - 1), uint64(n - 1), uint64(id), uint64(warm), 0}) {
 						return false
 					}
-					for ord := 0; ord < 8; ord++ {
+					for ord := 0; ord < maxOrd; ord++ {
 						for kind := 1; kind <= nk; kind++ {
 							a := 11 + seed%97 + uint64(ord)*131
 							if !emit([]uint64{uint64(h - 1), uint64(n - 1), uint64(id), uint64(warm), uint64(kind), uint64(ord), a, a*7 + 3}) {
@@ -479,7 +482,7 @@ func init() {
 		},
 		Explore: []string{"explore"},
 		Sweeps: []core.Sweep{{Name: "single-network-fault-placement", Entry: "sweep", Enumerate: c01Enumerate,
-			Space: "tile heights 1..4 (quick 1..3) x log sizes 1..40 (quick 1..18) x looked-up record (quick: first/middle/last) x {cold cache, cache warmed by another record, cache warmed by the same record} x {honest, each of the first 8 network responses x each of 20 network fault kinds}"}},
+			Space: "tile heights 1..4 (quick 1..2) x log sizes 1..40 (quick 1..12) x looked-up record (quick: first/last) x {cold cache, cache warmed by another record (thorough only), cache warmed by the same record} x {honest, each of the first 8 (quick 6) network responses x each of 20 network fault kinds}"}},
 		Rule: "explore: seeded (tile height 1-8, log 1-70 records (thorough up to 1100), log growing during the run, 1-3 clients sharing one machine's cache and config with 1-3 goroutines each, 0-3 faults over network/cache/config classes, 0-2 crash-restarts at arbitrary scheduler steps) followed by a heal phase; sweep: one placed network fault. " +
 			"Distinct = digest of the complete seam event log and schedule; non-trivial = at least one lookup completed.",
 		Real:        []string{"sumdb.Client incl. parCache and tileReader", "tlog (tiles, hashes, records, tree heads)", "note.Open/NewVerifier", "module.Escape*", "sumdb.Server.ServeHTTP over harness ServerOps"},
